@@ -253,6 +253,18 @@ func (w *world) dataMut(m Mut) map[string][]byte {
 		}
 	case "dgarbage":
 		st[name] = garbage(len(d), uint64(m.Off)+9)
+	case "dslice":
+		S := w.base.Slice
+		if S == 0 {
+			S = 64
+		}
+		c := append([]byte{}, d...)
+		off := (m.Off * S) % (len(d) + 1)
+		if off > len(c) {
+			off = len(c)
+		}
+		copy(c[off:], garbage(S, uint64(m.Off)+17))
+		st[name] = c
 	case "dgrow":
 		// garbage that is longer than the original (a rewrite has to truncate)
 		st[name] = garbage(len(d)+m.Off, uint64(m.Off)+11)
@@ -599,6 +611,9 @@ func (w *world) enumerate(thorough bool) []Mut {
 			ms = append(ms, Mut{Op: "dflip", File: fi, Off: o, Bit: 3})
 		}
 		ms = append(ms, Mut{Op: "dgarbage", File: fi, Off: 1}, Mut{Op: "dempty", File: fi}, Mut{Op: "ddelete", File: fi})
+		for k := 0; k < 8 && k*S < L; k++ {
+			ms = append(ms, Mut{Op: "dslice", File: fi, Off: k})
+		}
 		for _, g := range []int{1, 2, S, 120, 1000} {
 			ms = append(ms, Mut{Op: "dgrow", File: fi, Off: g}, Mut{Op: "dappend", File: fi, Off: g})
 		}
@@ -639,7 +654,7 @@ func mutClass(w *world, m Mut) string {
 			return "flip-par1-header"
 		}
 		return "flip-par1-entry-or-data"
-	case "dtrunc", "dflip", "dgarbage", "dempty", "ddelete", "dgrow", "dappend":
+	case "dtrunc", "dflip", "dgarbage", "dempty", "ddelete", "dgrow", "dappend", "dslice":
 		return "data-file-" + m.Op[1:]
 	case "prefix":
 		return "interrupted-create"
@@ -727,6 +742,8 @@ func TestCheck(t *testing.T) {
 	bigBases := []Base{
 		{Format: "par2", Slice: 64, N: 3, Files: []scen.FileSpec{{Name: "a.dat", Size: 16384 + 200, Kind: "random", Seed: 41}, {Name: "sub/b.bin", Size: 100, Kind: "random", Seed: 42}}},
 		{Format: "par1", N: 2, Files: []scen.FileSpec{{Name: "a.dat", Size: 16384 + 200, Kind: "random", Seed: 43}, {Name: "b.bin", Size: 50, Kind: "random", Seed: 44}}},
+		// a file whose odd slices are CRC-32 twins of the even ones (same CRC-32, different bytes)
+		{Format: "par2", Slice: 8, N: 2, Files: []scen.FileSpec{{Name: "tw.dat", Size: 64, Kind: "crctwin", Seed: 51}, {Name: "o.bin", Size: 20, Kind: "random", Seed: 52}}},
 		// whole-file duplicates above 16 KiB (same content under two protected names) plus a file of exactly 16384 bytes
 		{Format: "par2", Slice: 1000, N: 3, Files: []scen.FileSpec{{Name: "a.dat", Size: 20000, Kind: "random", Seed: 45}, {Name: "copy of a.dat", Size: 20000, Kind: "random", Seed: 45}, {Name: "x16k", Size: 16384, Kind: "random", Seed: 46}}},
 		{Format: "par1", N: 2, Files: []scen.FileSpec{{Name: "a.dat", Size: 20000, Kind: "random", Seed: 47}, {Name: "copy of a.dat", Size: 20000, Kind: "random", Seed: 47}, {Name: "x16k", Size: 16384, Kind: "random", Seed: 48}}},
